@@ -27,6 +27,20 @@ def _assigned_names(nodes):
 
 def havoc_value(E, v, name, st, typ=None):
     """a fresh value of the same python type as v (or of declared type `typ`)"""
+    if typ == 'acc':
+        # append-only accumulator abstraction (DESIGN 2.3) of a list of byte strings: the list object is turned IN PLACE
+        # (aliases stay aliases) into (count, last, joined), all three unknown; exact for append / [-1] / len / b''.join,
+        # every other operation on it is Unsupported
+        if not (isinstance(v, Ref) and st.heap[v.oid].kind in ('list', 'acc')):
+            raise Unsupported('acc abstraction of %s: not a list' % name)
+        h = st.heap[v.oid]
+        if h.kind == 'list' and not all(is_byteslike(x) for x in h.items):
+            raise Unsupported('acc abstraction of %s: items are not byte strings' % name)
+        cnt = E.fresh_int(name + '_count')
+        st.assume(cnt.t >= 0)
+        h.kind = 'acc'
+        h.items = [cnt, E.fresh_bytes(name + '_last'), E.fresh_bytes(name + '_joined')]
+        return v
     if typ is not None:
         from .contracts import fresh_typed
         return fresh_typed(E, st, typ, name)
@@ -302,6 +316,8 @@ def _check_unhavocked_writes(E, st, start, written_fields, explicit, where, oid_
             r = list(E.ev(ast.parse(base, mode='eval').body, st, sink))
             if len(r) == 1 and isinstance(r[0][1], Ref):
                 allowed.add((r[0][1].oid, fld))
+        elif isinstance(env.get(h), Ref) and st.heap[env[h].oid].kind == 'acc':
+            allowed.add((env[h].oid, '<items>'))       # havocked as an accumulator before the invariant was assumed
     for (oid, fld) in st.writes[start:]:
         if (oid, fld) not in allowed and oid < oid_floor:
             raise Unsupported('%s: body writes %s of object %d which the loop spec does not havoc' % (where, fld, oid))
